@@ -9,10 +9,11 @@ if _TOOLS not in sys.path:
 
 ID = "C12"
 PROPS_FILE = "theories/Props/C12.v"
-EXTRACT = ("theories/Extract/XC12.v", "c12", ["entry_agree_in", "entry_agree_out"])
+EXTRACT = ("theories/Extract/XC12.v", "c12", ["entry_agree_in", "entry_agree_out", "entry_ref"])
 PYX = {"_filter.pyx": ["masked_convolution"]}
 CASE_TIMEOUT = 60
-RULE = ("every listed function x every optional-parameter variant it offers x image shapes (1x1 .. 14x14 skewed to tiny, plus "
+RULE = ("240 (thorough 3000) reference-model cases (scipy.ndimage correlate/convolve/binary and grey erosion/dilation on "
+        "random small integer arrays and kernels, compared exactly with Model.MaskRef); then every listed function x every optional-parameter variant it offers x image shapes (1x1 .. 14x14 skewed to tiny, plus "
         "strips 70-600 x 1-5) x mask classes (random, thin lines, frame, single-pixel holes, masked-out runs ON the border, "
         "one-pixel spokes reaching the border, all-False, all-True, blob) x image dtype (float64/32, int64/32/16, uint8/16 "
         "incl. extremes, bool) x layout of image and of mask (C, Fortran, strided view, read-only) x mask dtype "
@@ -21,11 +22,16 @@ RULE = ("every listed function x every optional-parameter variant it offers x im
         "masked-out pixel and the base output is not constant inside the mask; distinct by hash of the case")
 TRUSTED = [
     "translator tools/gen_maskflow_c12.py (symbolic evaluation of the Python AST -> mask-dataflow program with shared "
-    "definitions, fail-closed; 39 of the 40 functions) and the one hand-written term of tools/maskflow_hand_c12.py "
-    "(regional_maximum, over an abstract structure) pinned to a normalised-AST hash (tools/maskflow_pins_c12.json)",
+    "definitions, fail-closed; all 42 programs: the 40 functions the property names + masked_convolution and branchings) "
+    "and ONE hand-written loop summary in tools/maskflow_hand_c12.py (the loop of regional_maximum over the structure's "
+    "offsets with clipped slice bounds, as LocS/ErodeS over an abstract structure) pinned to the normalised hash of that "
+    "loop only (tools/maskflow_pins_c12.json)",
     "library-symbol locality table of gen_maskflow_c12.py (the interface the theorems quantify over): POINTWISE NumPy "
     "ufuncs/astype/copy; convolve with a literal kxk kernel local with radius k//2 (reflect border reads stay within "
-    "that radius); binary_erosion(m, generate_binary_structure(2,2), border_value=0) = Erode 1; GLOBAL = pure functions "
+    "that radius) and binary_erosion(m, generate_binary_structure(2,2), border_value=0) = Erode 1 - both tied to the "
+    "executable reference models of Model/MaskRef.v (locality and guarantee proved in Proofs/MaskRefLocal.v, the "
+    "models compared with scipy.ndimage correlate/convolve/binary_erosion/binary_dilation/grey_erosion/grey_dilation "
+    "on random integer arrays on every run); GLOBAL = pure functions "
     "of their array arguments (table_lookup, scind.grey_erosion/dilation, gaussian_filter, label, "
     "distance_transform_edt, rank_order, lstsq, index_lookup, helper functions of the three modules, a user-supplied "
     "smoothing function); in-place kernels skeletonize_loop / _filter.median_filter write only their declared argument; "
@@ -41,23 +47,30 @@ TRUSTED = [
     "enumerates x at p + start(s1) - start(s2) over the true pixels p of m in m's order whenever the code combines it "
     "elementwise with a vector gathered by m (NumPy raises otherwise); dtype conversions of a mask keep its truthiness",
     "modelled, not verified: arrays as total functions on Z*Z; determinism of NumPy/SciPy (two runs on equal data give "
-    "equal bits); regional_maximum's hand term: the structure is an abstract offset set, the tie-break an opaque pure "
-    "function of the ties pass",
+    "equal bits); regional_maximum's loop summary: the structure is an abstract offset set",
 ]
 ASSUMPTIONS = ["image and mask have the same 2-d shape; mask is boolean; the smoothing function handed to "
                "smooth_with_function_and_mask is pure"]
 EXHAUSTIVE = {"quick": False, "thorough": False}
 
 # ------------------------------------------------------------------------------------------------ static side
-# hand-written, pinned to the normalised AST: regional_maximum (recursion + loops over the offsets of an arbitrary
-# structure with computed slice bounds); its term is stated over an abstract structure (LocS / ErodeS)
-HAND_TERMS = ["regional_maximum"]
+# all 40 functions are translated from the source; the one construct the evaluator cannot evaluate (regional_maximum's
+# loop over the structure offsets with clipped slice bounds) has a hand-written LOOP SUMMARY pinned to that loop only
+HAND_TERMS = []
 BINARY = ["bridge", "clean", "diag", "endpoints", "branchpoints", "fill", "fill4", "hbreak", "vbreak", "majority",
           "remove", "spur", "thicken", "thin", "skeletonize"]
 LISTED = ["median_filter", "grey_erosion", "grey_dilation", "opening", "closing", "white_tophat", "black_tophat",
           "openlines", "sobel", "hsobel", "vsobel", "prewitt", "hprewitt", "vprewitt", "roberts", "canny",
           "laplacian_of_gaussian", "variance_transform", "circular_average_filter", "smooth_with_function_and_mask",
           "stretch", "fit_polynomial", "circular_hough", "convex_hull_transform", "regional_maximum"] + BINARY
+# accept a mask and are implied by "every filter or morphological operation that accepts a mask" though the quantifier
+# text does not name them: the masked-convolution wrapper (named in the anchors) and branchings (sibling of branchpoints)
+IMPLIED = ["masked_convolution", "branchings"]
+NAMED = list(LISTED)
+LISTED = LISTED + IMPLIED
+# accept a `mask` argument but are NOT claimed (reasons in reports/C12.md); their terms are emitted as comments only
+NOT_CLAIMED = {"life": "ignores its mask argument altogether",
+               "granulometry_filter": "normalises by image.max() over the whole image, like enhance_dark_holes (excluded by the property text)"}
 AUTO = [n for n in LISTED if n not in HAND_TERMS]
 # normalised-AST pins of the functions that have hand-written terms (and of the code those terms rely on)
 PINS = {}
@@ -81,6 +94,7 @@ def build_terms(sources):
     import gen_maskflow_c12 as G
     import maskflow_hand_c12 as Hd
     M = G.Module(sources)
+    M.summaries = Hd.summaries(PINS)
     terms, rejected, extra, errors = {}, {}, {}, []
     param = {}
 
@@ -108,8 +122,14 @@ def build_terms(sources):
         attempt(name, lambda builder=builder: builder(M), rejected)
     for name, (fn, builder) in Hd.EXTRA.items():
         attempt(name, lambda fn=fn, builder=builder: (pins_ok(fn), builder(M))[1], extra)
-    for name, (fn, builder) in Hd.PARAM.items():
-        attempt(name, lambda fn=fn, builder=builder: (pins_ok(fn), builder(M))[1], param)
+    for name, fn in Hd.PARAM.items():
+        attempt(name, lambda fn=fn: G.translate(M, fn, struct_id=Hd.SSYM), param)
+    emit.not_claimed = {}
+    for n, why in NOT_CLAIMED.items():
+        try:
+            emit.not_claimed[n] = (why, G.show(G.lower(G.translate(M, n)), 300))
+        except Exception as e:                      # noqa: documentation only
+            emit.not_claimed[n] = (why, "untranslatable: %s" % e)
     for n in LISTED:
         if n not in terms:
             terms[n] = _untranslatable()
@@ -148,7 +168,7 @@ def emit(terms, rejected, extra=None):
         body.append("")
     import maskflow_hand_c12 as Hd
     for name, t in param.items():
-        body.append("(* %s: the term of %s with a symbolic (abstract) structure s *)" % (name, Hd.PARAM[name][0]))
+        body.append("(* %s: the program of %s with a symbolic (abstract) structure s *)" % (name, Hd.PARAM[name]))
         body.append("Definition prog_%s (s : nat) : prog :=\n  %s." % (name, em.prog(t, (Hd.SSYM, "s"))))
         body.append("Lemma %s_ok : forall s, accepts (prog_%s s) = true.\nProof. intros s. unfold accepts, prog_%s. cbn. "
                     "rewrite ?PeanoNat.Nat.eqb_refl. cbn. reflexivity. Qed.\n" % (name, name, name))
@@ -165,6 +185,8 @@ def emit(terms, rejected, extra=None):
             out.append("Definition %s : nat := %d." % (ident, i))
     out.append("")
     out.extend(body)
+    for name, why in getattr(emit, "not_claimed", {}).items():
+        out.append("(* NOT CLAIMED  %s  (%s): %s *)" % (name, why[0], why[1].replace("(*", "( *").replace("*)", "* )")))
     out.append("Definition listed_progs : list prog :=\n  [%s]." % "; ".join("prog_" + n for n in LISTED))
     out.append("Definition binary_progs : list prog :=\n  [%s]." % "; ".join("prog_" + n for n in BINARY))
     out.append("Lemma listed_accepted : forallb accepts listed_progs = true.\nProof. vm_compute. reflexivity. Qed.")
@@ -217,6 +239,13 @@ def _variants():
     add("openlines", "float", "default", lambda m, a, k: m["M"].openlines(a, mask=k))
     for nm in "sobel hsobel vsobel prewitt hprewitt vprewitt roberts".split():
         add(nm, "float", "default", lambda m, a, k, nm=nm: getattr(m["F"], nm)(a, k))
+    add("masked_convolution", "float", "k3", lambda m, a, k: m["F"].masked_convolution(
+        a, np.ascontiguousarray(k, np.uint8), np.array([[1, 2, 1], [2, 4, 2], [1, 2, 1]], float) / 16))
+    add("masked_convolution", "float", "k5", lambda m, a, k: m["F"].masked_convolution(
+        a, np.ascontiguousarray(k, np.uint8), np.add.outer(np.arange(5.0), np.arange(5.0) * 0.5) - 2))
+    add("masked_convolution", "float", "k1", lambda m, a, k: m["F"].masked_convolution(
+        a, np.ascontiguousarray(k, np.uint8), np.array([[2.5]])))
+    add("branchings", "bool", "default", lambda m, a, k: m["M"].branchings(a, k))
     add("canny", "float", "s1", lambda m, a, k: m["F"].canny(a, k, 1.0, 0.1, 0.2))
     add("canny", "float", "s0.5", lambda m, a, k: m["F"].canny(a, k, 0.5, 0.02, 0.05))
     add("canny", "float", "s2", lambda m, a, k: m["F"].canny(a, k, 2.0, 0.0, 0.01))
@@ -433,6 +462,94 @@ def make_case(rng, fn, vi):
             "layout": str(rng.choice(LAYOUTS)), "mask_layout": str(rng.choice(LAYOUTS))}
 
 
+# ---- reference models of the SciPy symbols whose locality the table trusts (Model/MaskRef.v), run against SciPy
+REF_OPS = ["correlate", "convolve", "binary_erosion", "binary_dilation", "grey_erosion", "grey_dilation"]
+
+
+def make_ref_case(rng, op=None):
+    op = op or REF_OPS[rng.randint(len(REF_OPS))]
+    H, W = int(rng.randint(1, 9)), int(rng.randint(1, 9))
+    kh, kw = int(rng.choice([1, 3, 3, 3, 5])), int(rng.choice([1, 3, 3, 3, 5]))
+    if op in ("correlate", "convolve"):
+        img = rng.randint(-9, 10, (H, W))
+        ker = rng.randint(-3, 4, (kh, kw))
+        if rng.rand() < 0.3:                               # the kernels of the code
+            ker = np.array([[[1, 2, 1], [0, 0, 0], [-1, -2, -1]], [[1, 0, -1], [2, 0, -2], [1, 0, -1]],
+                            [[1, 1, 1], [0, 0, 0], [-1, -1, -1]], [[1, 0, -1], [1, 0, -1], [1, 0, -1]]][rng.randint(4)])
+        mode, cval = (("constant", int(rng.randint(-2, 3))) if rng.rand() < 0.4 else ("reflect", 0))
+    else:
+        ker = (rng.rand(kh, kw) < 0.7).astype(int)
+        if rng.rand() < 0.4:
+            ker = np.ones((3, 3), int)
+        if not ker.any():
+            ker[kh // 2, kw // 2] = 1
+        if op.startswith("binary"):
+            img = (rng.rand(H, W) < 0.75).astype(int)
+            mode, cval = "constant", 0                    # border_value=0
+        else:
+            img = rng.randint(0, 20, (H, W))
+            mode, cval = "reflect", 0
+    return {"fn": "__ref__", "op": op, "img": img.tolist(), "ker": np.asarray(ker).tolist(), "mode": mode, "cval": cval,
+            "tag": op, "mask_class": "ref", "kind": "ref"}
+
+
+def _ref_impl(case):
+    import scipy.ndimage as nd
+    img = np.array(case["img"], dtype=np.int64)
+    ker = np.array(case["ker"], dtype=np.int64)
+    op = case["op"]
+    if op == "correlate":
+        r = nd.correlate(img, ker, mode=case["mode"], cval=case["cval"])
+    elif op == "convolve":
+        r = nd.convolve(img, ker, mode=case["mode"], cval=case["cval"])
+    elif op == "binary_erosion":
+        r = nd.binary_erosion(img.astype(bool), ker.astype(bool), border_value=0)
+    elif op == "binary_dilation":
+        r = nd.binary_dilation(img.astype(bool), ker.astype(bool), border_value=0)
+    elif op == "grey_erosion":
+        r = nd.grey_erosion(img, footprint=ker.astype(bool))
+    else:
+        r = nd.grey_dilation(img, footprint=ker.astype(bool))
+    return {"ref": np.asarray(r).astype(np.int64).tolist()}
+
+
+def _ref_arg(case):
+    """wire argument of Model.MaskRef.entry_ref: (op grid offsets weights mode cval)"""
+    ker = np.array(case["ker"], dtype=np.int64)
+    ch, cw = ker.shape[0] // 2, ker.shape[1] // 2
+    op = case["op"]
+    flip = op in ("convolve", "binary_dilation", "grey_dilation")          # these read a(p - d)
+    ds, ws = [], []
+    for i in range(ker.shape[0]):
+        for j in range(ker.shape[1]):
+            if op in ("correlate", "convolve") or ker[i, j]:
+                d = (i - ch, j - cw)
+                ds.append([-d[0], -d[1]] if flip else [d[0], d[1]])
+                ws.append(int(ker[i, j]))
+    code = {"correlate": 0, "convolve": 0, "binary_erosion": 1, "binary_dilation": 2, "grey_erosion": 3, "grey_dilation": 4}[op]
+    return [code, case["img"], ds, ws, 0 if case["mode"] == "constant" else 1, case["cval"]]
+
+
+def model(ctx, cases, outs):
+    idx = [k for k, c in enumerate(cases) if c.get("fn") == "__ref__"]
+    res = [None] * len(cases)
+    if idx:
+        for k, r in zip(idx, ctx.run_model("entry_ref", [_ref_arg(cases[k]) for k in idx])):
+            res[k] = r
+    return res
+
+
+def compare(case, out, mout):
+    if case.get("fn") != "__ref__":
+        return None
+    if not isinstance(out, dict) or "ref" not in out:
+        return "SciPy reference call failed: %s" % (str(out)[:200],)
+    if mout != out["ref"]:
+        return "scipy.ndimage.%s differs from Model.MaskRef (%s border): scipy %s model %s" % (
+            case["op"], case["mode"], str(out["ref"])[:160], str(mout)[:160])
+    return None
+
+
 def _corpus():
     import json
     d = os.path.join(os.path.dirname(_TOOLS), "corpus", "C12")
@@ -450,6 +567,9 @@ def generate(ctx):
     cases = _corpus()
     for c in cases:
         ctx.count("corpus")
+    for k in range(ctx.n(240, 3000)):
+        cases.append(make_ref_case(ctx.rng, REF_OPS[k % len(REF_OPS)]))
+        ctx.count("ref:" + cases[-1]["op"])
     per = ctx.n(60, 400)
     for fn in LISTED:
         nv = len(VARIANTS[fn])
@@ -532,6 +652,8 @@ def _variant(case):
 
 
 def impl(case):
+    if case.get("fn") == "__ref__":
+        return _ref_impl(case)
     f = _variant(case)[2]
     mask = np.array(case["mask"], dtype=int).astype(bool)
     img = _arr(case, case["img"])
@@ -555,6 +677,8 @@ def check(ctx, cases, outs):
     res = [None] * len(cases)
     jobs_in, jobs_out = [], []
     for k, (c, o) in enumerate(zip(cases, outs)):
+        if c.get("fn") == "__ref__":
+            continue                                   # reference-model correspondence: judged by compare()
         if _bad(o):
             res[k] = "implementation raised/crashed: %s" % (str(o)[:300],)
             continue
@@ -599,6 +723,8 @@ def check(ctx, cases, outs):
 
 
 def nontrivial(case, out):
+    if case.get("fn") == "__ref__":
+        return isinstance(out, dict) and "ref" in out and len({v for row in out["ref"] for v in row}) > 1
     m = np.array(case["mask"], bool)
     if m.all() or not m.any() or _bad(out) or "exc" in out["base"]:
         return False
@@ -614,6 +740,8 @@ def nontrivial(case, out):
 def kernel_crosscheck(ctx, cases, outs):
     args, exp = [], []
     for c, o in zip(cases, outs):
+        if c.get("fn") == "__ref__":
+            continue
         if len(args) >= 40 or _bad(o) or "exc" in o["base"] or len(c["mask"]) * len(c["mask"][0]) > 36:
             continue
         mflat = [v for row in c["mask"] for v in row]
@@ -634,7 +762,14 @@ def kernel_crosscheck(ctx, cases, outs):
     bad = [k for k, b in enumerate(r) if b is not True]
     if bad:
         return "vm_compute evaluation of Spec.MaskCheck.entry_agree_in differs from the expected verdict on sub-case %d" % bad[0], len(args)
-    return None, len(args)
+    # the reference models of the SciPy symbols, evaluated by the kernel against SciPy's own output
+    rc = [(c, o) for c, o in zip(cases, outs) if c.get("fn") == "__ref__" and isinstance(o, dict) and "ref" in o
+          and len(c["img"]) * len(c["img"][0]) <= 30][:24]
+    r2 = ctx.coq_eval_eq("Model.MaskRef", "entry_ref", [_ref_arg(c) for c, _ in rc], [o["ref"] for _, o in rc], tag="ref")
+    bad = [k for k, b in enumerate(r2) if b is not True]
+    if bad:
+        return "vm_compute evaluation of Model.MaskRef.entry_ref differs from SciPy on %s" % rc[bad[0]][0]["op"], len(args) + len(rc)
+    return None, len(args) + len(rc)
 
 
 def search_cases(ctx, rnd):
@@ -647,6 +782,8 @@ def search_cases(ctx, rnd):
 
 
 def shrink_candidates(case):
+    if case.get("fn") == "__ref__":
+        return
     img, mask = case["img"], case["mask"]
     H, W = len(img), len(img[0])
     m = np.array(mask, bool)
@@ -678,20 +815,25 @@ def shrink_candidates(case):
 
 MANIFEST = {
     "level_text": (
-        "Machine-checked proof (Coq 8.16): a mask-dataflow language (pointwise / radius-local / pure library symbols, "
-        "mask erosion, select-by-mask, the concrete masked-convolution kernel) with a radius checker proved sound for "
-        "EVERY interpretation of the library symbols that respects the declared locality: an accepted program is "
-        "non-interfering inside the mask, a program ending in `result[~mask] = image[~mask]` returns its input outside. "
-        "On every run a fail-closed translator turns the staged source of the 40 listed functions into such programs "
-        "(39 by symbolic evaluation of the Python AST into DAG programs, regional_maximum hand-written over an abstract structure and pinned to its normalised-AST hash) and the "
-        "kernel re-checks that every one is accepted (and that the 15 binary operations restore). Dynamically every "
-        "function and optional-parameter variant is run on (img, mask) and on images differing outside the mask; the "
-        "outputs are compared bit for bit inside the mask (binary family: also outside against the input) through the "
-        "extracted verified checker."),
+        "Machine-checked proof (Coq 8.16): a mask-dataflow language (programs with shared definitions; pointwise / "
+        "radius-local / footprint-local / pure library symbols, mask erosion, select-by-mask, the concrete masked-"
+        "convolution kernel) with a dependence checker proved sound for EVERY interpretation of the library symbols that "
+        "respects the declared locality: an accepted program is non-interfering inside the mask, a program ending every "
+        "path in `result[~mask] = image[~mask]` returns its input outside. On every run a fail-closed symbolic evaluator "
+        "translates the staged source of all 42 masked operations (the 40 the property names, masked_convolution, "
+        "branchings) into such programs - no hand-written term; one loop of regional_maximum has a hand-written summary "
+        "pinned to that loop - and the kernel re-checks that every program is accepted (and that the 15 binary "
+        "operations restore), incl. regional_maximum for every structure. The locality the table assumes of "
+        "scipy.ndimage correlate/convolve and binary/grey erosion/dilation is proved for executable reference models "
+        "(radius = footprint extent, constant and reflect borders) that are compared with SciPy on every run. "
+        "Dynamically every function and optional-parameter variant is run on (img, mask) and on images differing outside "
+        "the mask; outputs are compared bit for bit inside the mask (binary family: also outside against the input) "
+        "through the extracted verified checker."),
     "level_note": (
-        "Trusted: Coq kernel + vm_compute; the AST translator and the hand terms; the locality table of NumPy/SciPy "
-        "symbols (the theorems quantify over all interpretations satisfying it); extraction (ExtrOcamlBasic only). The "
-        "tie between terms and code is by translation, not a proof about Python."),
+        "Trusted: Coq kernel + vm_compute; the symbolic evaluator, its NumPy identities and the one loop summary; the "
+        "locality table of NumPy/SciPy symbols (the theorems quantify over all interpretations satisfying it; for "
+        "correlate/convolve and erosion/dilation it is additionally tied to reference models checked against SciPy); "
+        "extraction (ExtrOcamlBasic only). The tie between programs and code is by translation, not a proof about Python."),
     "technique": "Coq proof of a dataflow checker + per-run AST translation of the source + two-run differential oracle",
     "design_ref": "DESIGN.md section 7, C12",
 }
